@@ -27,6 +27,8 @@ rx("m03c", "C03", "slices.go", r"ptr := destVal\.Index\(idx\)", "ptr := destVal.
 rx("m03d", "C03", "boolean.go", r"coercer: conf\.Coercers\.Bool", "coercer: conf.DefaultCoercers.Bool", "default-coercer")
 rx("m03e", "C03", "conf/Coercers.go", r'if v == "on" \{', 'if v == "on" || v == "yes" {', "coercion-table")
 rx("m03f", "C03", "conf/Coercers.go", r"return time\.Unix\(int64\(v\), 0\), nil", "return time.UnixMilli(int64(v)), nil", "coercion-table", "unix seconds read as milliseconds")
+rx("m03g", "C03", "struct.go", r"key\[0\] <= 'z' \{\n\t\t\tkey = string\(rune\(key\[0\]-32\)\) \+ key\[1:\]\n\t\t\}\n\n\t\tfieldMeta, ok := structVal", "key[0] < 'z' {\n\t\t\tkey = string(rune(key[0]-32)) + key[1:]\n\t\t}\n\n\t\tfieldMeta, ok := structVal", "field-name-rule", "schema keys starting with z are not mapped to their exported field (Parse)")
+rx("m03h", "C03", "struct.go", r"(func \(v \*StructSchema\) validate(?s:.*?))key\[0\] >= 'a'", "${1}key[0] > 'a'", "field-name-rule", "schema keys starting with a are not mapped to their exported field (Validate)")
 # ---- C04
 rx("m04a", "C04", "pointers.go", r"(func \(v \*PointerSchema\) process(?s:.*?))if v\.required != nil \{", "${1}if v.required == nil {", "decision-shape")
 rx("m04b", "C04", "string.go", r"v\.coercer, p\.IsParseZeroValue\)", "v.coercer, func(val any, ctx p.Ctx) bool { return p.IsZeroValue(val) })", "zero-predicate-binding")
@@ -38,12 +40,14 @@ rx("m05a", "C05", "slices.go", r"\t\tsubCtx\.Exit = false\n\t\tsubCtx\.CanCatch 
 rx("m05b", "C05", "zogSchema.go", r"\*destPtr = \*catch\n\t\t\t\treturn\n\t\t\t\} else \{", "return\n\t\t\t} else {", "swallow-implies-catch-store")
 rx("m05c", "C05", "custom.go", r"ctx\.AddIssue\(ctx\.IssueFromCoerce\(", "ctx.ExecCtx.AddIssue(ctx.IssueFromCoerce(", "no-direct-sink")
 rx("m05d", "C05", "internals/contexts.go", r"\t\tc\.Exit = true\n", "\t\tc.Exit = true\n\t\tc.HasCaught = true\n", "flag-writers")
+rx("m05z", "C05", "numbers.go", r"(func \(v \*NumberSchema\[T\]\) process\(ctx \*p\.SchemaCtx\) \{\n)", "${1}\tif _, isFn := ctx.Data.(func()); isFn {\n\t\tctx.AddIssue(ctx.IssueFromCoerce(nil))\n\t\treturn\n\t}\n", "issues-inside-catch-scope", "a failure of the node raised before its Catch is armed")
 # ---- C06
 rx("m06a", "C06", "internals/DataProviders.go", r"if !field\.IsValid\(\) \|\| !field\.CanInterface\(\) \{", "if !field.IsValid() {", "panic-site")
 rx("m06b", "C06", "struct.go", r"ok && factory != nil", "ok", "panic-site")
 rx("m06c", "C06", "struct.go", r"\tif dataProv == nil \{\n\t\tdataProv = &p\.EmptyDataProvider\{\}\n\t\}\n", "", "nil-provider")
 rx("m06d", "C06", "internals/DataProviders.go", r"m, ok := x\.Interface\(\)\.\(map\[string\]T\)\n\tif !ok \{", "m := x.Interface().(map[string]T)\n\tok := true\n\tif !ok {", "panic-site")
 rx("m06e", "C06", "struct.go", r"key = string\(rune\(key\[0\]-32\)\) \+ key\[1:\]", "var b [32]byte\n\t\t\tcopy(b[:], key)\n\t\t\tb[0] -= 32\n\t\t\tkey = string(b[:len(key)])", "panic-site")
+rx("m06f", "C06", "slices.go", r"(func sliceLength(?s:.*?))return rv\.Len\(\) == n", "${1}seen := map[any]bool{}\n\t\tfor i := 0; i < rv.Len(); i++ {\n\t\t\tseen[rv.Index(i).Interface()] = true\n\t\t}\n\t\treturn rv.Len() == n", "panic-site", "elements of the parsed slice used as keys of a map[any]: a JSON object among them panics")
 # ---- C07
 rx("m07a", "C07", "internals/contexts.go", r"\tc2\.Exit = false\n", "", "reinit")
 rx("m07b", "C07", "internals/Issues.go", r"\te\.Err = nil\n\treturn e", "\treturn e", "reinit")
@@ -87,6 +91,8 @@ rx("m12d", "C12", "preprocess.go", r"(ctx\.AddIssue\(ctx\.IssueFromUnknownError\
 rx("m12e", "C12", "struct.go", r"(ctx\.AddIssue\(ctx\.IssueFromUnknownError\(err\)\)\n\t\t\t\t\t)return", "${1}continue", "posttransform-shape")
 rx("m12f", "C12", "internals/contexts.go", r"return c\.Issue\(\)\.SetError\(err\)", "return c.Issue()", "unknown-error-shape", "the callback's error is dropped from the issue that reports it")
 rx("m12g", "C12", "internals/contexts.go", r"(func \(c \*SchemaCtx\) IssueFromUnknownError(?s:.*?))\treturn zerr\n", "${1}\tzerr.Path = c.Path.String()\n\treturn zerr\n", "unknown-error-shape", "the callback's own issue gets its path rewritten")
+rx("m12h", "C12", "internals/contexts.go", r'if zerr\.Dtype == "" \{', 'if zerr.Dtype != "" {', "unknown-error-shape", "the type of the schema is written over an issue that has one, and not into one that has none")
+rx("m11h", "C11", "internals/contexts.go", r'\tif zerr\.Dtype == "" \{\n\t\tzerr\.Dtype = c\.DType\n\t\}\n', "", "foreign-issue-gets-type", "an issue built by zhttp/zjson keeps an empty type")
 # ---- C13
 rx("m13a", "C13", "slices.go", r"ctx\.AddIssue\(ctx\.IssueFromTest\(v\.required, ctx\.ValPtr\)\)\n\t\t\treturn", "return", "twin-language")
 rx("m13b", "C13", "struct.go", r"ctx\.AddIssue\(ctx\.IssueFromUnknownError\(err\)\)", "ctx.AddIssue(ctx.Issue().SetError(err))", "twin-language")
@@ -100,12 +106,14 @@ rx("m15a", "C15", "zhttp/zhttp.go", r'case "HEAD":\n\t\treturn Config\.Parsers\.
 rx("m15b", "C15", "zhttp/zhttp.go", r'strings\.Cut\(r\.Header\.Get\("Content-Type"\), ";"\)', 'strings.Cut(r.Header.Get("Content-Type"), ",")', "dispatch-table")
 rx("m15c", "C15", "parsers/zjson/parseJson.go", r"Code: zconst\.IssueCodeInvalidJSON, Err: errors\.New", "Code: zconst.IssueCodeCoerce, Err: errors.New", "decode-failure")
 rx("m15d", "C15", "zhttp/zhttp.go", r"v, ok := u\.Data\[key\]\n\t\tif !ok \{(?s:.*?)\n\t\t\}\n\t\treturn v", "return u.Data[key]", "list-scalar-absent")
+rx("m15z", "C15", "parsers/zjson/parseJson.go", r"defer closer\.Close\(\)", "closer.Close()", "source-open-while-read", "the request body is closed before it is decoded")
 # ---- C16
 rx("m16a", "C16", "struct_helpers.go", r"slices\.Clip\(v\.tests\)", "v.tests[:len(v.tests)]", "no-shared-backing")
 rx("m16b", "C16", "struct_helpers.go", r"(func \(v \*StructSchema\) Omit(?s:.*?))\tnew\.schema = Schema\{\}\n\tmaps\.Copy\(new\.schema, v\.schema\)\n", "${1}", "operands-read-only")
 rx("m16c", "C16", "struct_helpers.go", r"\tmaps\.Copy\(new\.schema, v\.schema\)\n\tmaps\.Copy\(new\.schema, other\.schema\)", "\tmaps.Copy(new.schema, other.schema)\n\tmaps.Copy(new.schema, v.schema)", "operand-order")
 rx("m16d", "C16", "struct_helpers.go", r"\t\t\t\tif pick \{", "\t\t\t\tif pick || true {", "selection")
 rx("m16e", "C16", "struct_helpers.go", r"\tmaps\.Copy\(new\.schema, v\.schema\)\n\tmaps\.Copy\(new\.schema, schema\)", "\tmaps.Copy(new.schema, schema)\n\tmaps.Copy(new.schema, v.schema)", "selection")
+rx("m16z", "C16", "struct.go", r"(func \(v \*StructSchema\) Test\(t Test\) \*StructSchema \{\n)", "${1}\tif len(v.tests) > 0 && v.tests[0].IssueCode == t.IssueCode {\n\t\tv.tests[0] = t\n\t\treturn v\n\t}\n", "no-element-overwrite", "a test with the same code replaces the first test in place: the element is shared with derived schemas")
 # ---- C17
 rx("m17a", "C17", "string.go", r"\t\tv\.isNot = false\n", "", "not-typestate")
 rx("m17b", "C17", "numbers.go", r"\tv\.required = nil\n", "\tv.required = nil\n\tv.defaultVal = nil\n", "field-effects")
@@ -117,6 +125,7 @@ rx("m18a", "C18", "numbers.go", r"n < math\.MinInt32 \|\| n > math\.MaxInt32", "
 rx("m18b", "C18", "conf/Coercers.go", r"t < -math\.MinInt\)", "t <= -math.MinInt)", "guarded-convert")
 rx("m18c", "C18", "conf/Coercers.go", r"convVal, err := strconv\.Atoi\(v\)\n\t\t\tif err != nil \{\n(?s:.*?)\n\t\t\t\}\n", "convVal, _ := strconv.Atoi(v)\n", "strconv-err")
 rx("m18d", "C18", "conf/Coercers.go", r"if !\(t >= math\.MinInt && t < -math\.MinInt\) \{", "if t < math.MinInt || t >= -math.MinInt {", "guarded-convert", "NaN satisfies the negated comparisons")
+rx("m18z", "C18", "conf/Coercers.go", r"(failed to coerce string int: %v\", err\)\n\t\t\t\}\n)\t\t\treturn convVal, nil", "${1}\t\t\treturn convVal * 1000, nil", "parsed-arithmetic", "a parsed number multiplied without a bound")
 # ---- C19
 rx("m19a", "C19", "slices.go", r"\t\t\tdef := reflect\.ValueOf\(v\.defaultVal\)\n(?s:.*?)refVal\.Set\(cp\)", "\t\t\trefVal.Set(reflect.ValueOf(v.defaultVal))", "default-not-aliased")
 rx("m19b", "C19", "zogSchema.go", r"\t\t\t\*destPtr = \*defaultVal\n", "\t\t\tdestPtr = defaultVal\n", "no-schema-or-input-writes")
